@@ -5,7 +5,8 @@ The control node serves scripted snapshots of system.local and system.peers_v2 (
 system.peers) - valid rows, rows with a missing address / host_id / data_center / rack /
 tokens, several rows for one endpoint, a peers row carrying the control node's own endpoint,
 one host_id on two endpoints, hosts appearing / vanishing, dc / rack / token changes, a host
-replaced by a new endpoint that keeps its tokens, hosts swapping tokens.  After
+replaced by a new endpoint that keeps its tokens, hosts swapping tokens; with peers_v2 every row
+carries its native_port and several hosts share an address (also the control node's).  After
 every refresh (called from the application thread or provoked by a pushed event) the world is
 settled and the cluster metadata, the recorded HostStateListener and load-balancing-policy
 notifications and the token map are compared with a 10-line reference reading of the snapshot.
@@ -23,13 +24,18 @@ LEVEL_TEXT = ("Thousands (quick) to tens of thousands (thorough) of seeded seque
               "of a SimpleStrategy and of a NetworkTopologyStrategy keyspace equal to a fresh spec/placement.py placement on that snapshot (incl. steps where the "
               "ring positions stay and only owners or dc/rack change), owners and replicas being Host objects of all_hosts(). Held-on-observed sequences.")
 LEVEL_NOTE = ("Trusted base: sim/world.py, sim/node.py, spec/frames.py + spec/cqlcodec.py (row encoding), spec/placement.py. Peers are identified "
-              "by endpoint as the driver does (a node changing its address is out of the statement). Every advertised peer address has a "
+              "by endpoint (address:port) as the driver does (a node changing its address is out of the statement). Every advertised peer address has a "
               "connectable SimNode so that pools open and on_add is reachable. Token-map judgement is made on TokenMap.token_to_host_owner.")
 QUICK_WORKERS = 4
 WORKERS = 14
 
 CONTROL = '127.0.0.1'
-PEERS = ['127.0.0.2', '127.0.0.3', '127.0.0.4', '127.0.0.5', '127.0.0.6']
+CONTROL_ID = '127.0.0.1:9042'  # hosts are identified by endpoint = address:port, as the driver does
+ADDRS = ['127.0.0.1', '127.0.0.2', '127.0.0.3', '127.0.0.4', '127.0.0.5', '127.0.0.6']
+# where a peer can live.  system.peers_v2 carries a native_port per row: several nodes may share an address, also the control node's;
+# the legacy system.peers table has no port column (every endpoint is address:9042)
+SLOTS_LEGACY = [(a, 9042) for a in ADDRS[1:]]
+SLOTS_V2 = [('127.0.0.2', 9042), ('127.0.0.3', 9042), ('127.0.0.3', 9043), ('127.0.0.4', 19042), ('127.0.0.1', 9043), ('127.0.0.1', 9142)]
 GHOST = '127.0.0.9'            # only ever advertised in invalid rows: never connected to
 EVENT_ADDR = '127.0.0.77'      # address used in pushed events (never a member)
 DCS = ['dc1', 'dc2', 'dc3']
@@ -37,16 +43,20 @@ RACKS = ['r1', 'r2', 'r3']
 
 
 # ------------------------------------------------------------------ reference reading of a snapshot
+def rid(r):
+    return None if r['addr'] is None else '%s:%d' % (r['addr'], r['port'])
+
+
 def mirror(snap):
-    """control node + every valid row, the first row of an endpoint wins: addr -> (host_id, dc, rack, tokens)"""
+    """control node + every valid row, the first row of an endpoint wins: address:port -> (host_id, dc, rack, tokens)"""
     loc = snap['local']
-    known = {CONTROL: (loc['host_id'], loc['dc'], loc['rack'], tuple(loc['tokens']))}
+    known = {CONTROL_ID: (loc['host_id'], loc['dc'], loc['rack'], tuple(loc['tokens']))}
     for r in snap['rows']:
         if not (r['addr'] and r['host_id'] and r['dc'] and r['rack'] and r['tokens']):
             continue
-        if r['addr'] in known:
+        if rid(r) in known:
             continue
-        known[r['addr']] = (r['host_id'], r['dc'], r['rack'], tuple(r['tokens']))
+        known[rid(r)] = (r['host_id'], r['dc'], r['rack'], tuple(r['tokens']))
     return known
 
 
@@ -56,9 +66,10 @@ def ownership(known):
 
 # ------------------------------------------------------------------ snapshot generator
 class Gen(object):
-    def __init__(self, rng):
+    def __init__(self, rng, slots):
         import uuid
         self.rng = rng
+        self.slots = list(slots)
         self.uuid = uuid
         pool = rng.sample(range(-4000, 4000), 700)
         self.tokens = iter(pool)
@@ -66,7 +77,7 @@ class Gen(object):
         self.truth = {}                        # addr -> dict(host_id, dc, rack, tokens)
         self.local = {'host_id': uuid.UUID(int=1), 'dc': 'dc1', 'rack': 'r1', 'tokens': self.toks()}
         self.last_hid = {}
-        for a in PEERS:
+        for a in self.slots:
             if rng.random() < 0.5:
                 self.appear(a)
 
@@ -87,7 +98,7 @@ class Gen(object):
         rng = self.rng
         kind = rng.choice(['tokens', 'tokens', 'membership', 'membership', 'location', 'mixed', 'mixed', 'none', 'replace', 'swap'])
         present = sorted(self.truth)
-        absent = [a for a in PEERS if a not in self.truth]
+        absent = [a for a in self.slots if a not in self.truth]
         if kind == 'replace' and not (present and absent):
             kind = 'swap'
         if kind == 'swap' and not present:
@@ -137,14 +148,15 @@ class Gen(object):
     def render(self, quiet=False):
         """rows of the peers table for the current truth plus noise rows"""
         rng = self.rng
-        rows = [dict(addr=a, kind='valid', **dict((k, (list(v) if isinstance(v, list) else v)) for k, v in t.items()))
+        rows = [dict(addr=a[0], port=a[1], kind='valid', **dict((k, (list(v) if isinstance(v, list) else v)) for k, v in t.items()))
                 for a, t in self.truth.items()]
         rng.shuffle(rows)
         noise = []
         n_noise = 0 if quiet else rng.choice([0, 0, 1, 1, 2, 3])
         for _ in range(n_noise):
             r = rng.random()
-            base = {'addr': rng.choice(PEERS + [GHOST]), 'host_id': self.hid(), 'dc': rng.choice(DCS), 'rack': rng.choice(RACKS),
+            slot = rng.choice(self.slots + [(GHOST, 9042)])
+            base = {'addr': slot[0], 'port': slot[1], 'host_id': self.hid(), 'dc': rng.choice(DCS), 'rack': rng.choice(RACKS),
                     'tokens': self.toks()}
             if r < 0.5:
                 miss = rng.choice(['addr', 'host_id', 'dc', 'rack', 'tokens', 'tokens-empty'])
@@ -154,13 +166,14 @@ class Gen(object):
                     base[miss] = None
                 base['kind'] = 'invalid:' + miss
             elif r < 0.75 and rows:
-                base['addr'] = rng.choice(rows)['addr']
+                twin = rng.choice(rows)
+                base['addr'], base['port'] = twin['addr'], twin['port']
                 base['kind'] = 'dup-endpoint'
             elif r < 0.88:
-                base['addr'] = CONTROL
+                base['addr'], base['port'] = CONTROL, 9042
                 base['kind'] = 'dup-control'
             elif rows:
-                base['addr'] = rng.choice([a for a in PEERS])
+                base['addr'], base['port'] = rng.choice(self.slots)
                 base['host_id'] = rng.choice(rows)['host_id']
                 base['kind'] = 'same-host-id'
             else:
@@ -179,7 +192,7 @@ class Gen(object):
 
 def canon(snap):
     return (tuple(sorted((k, str(v)) for k, v in snap['local'].items())),
-            tuple((r['addr'], str(r['host_id']), r['dc'], r['rack'], None if r['tokens'] is None else tuple(r['tokens'])) for r in snap['rows']))
+            tuple((r['addr'], r['port'], str(r['host_id']), r['dc'], r['rack'], None if r['tokens'] is None else tuple(r['tokens'])) for r in snap['rows']))
 
 
 # ------------------------------------------------------------------ one history
@@ -199,9 +212,9 @@ def run_history(seed):
     proto = rng.choice([3, 4, 4])
     v2 = rng.random() < 0.6
     nsteps = rng.randint(2, 5)
-    gen = Gen(rng)
+    gen = Gen(rng, SLOTS_V2 if v2 else SLOTS_LEGACY)
     ch = W.RandomChooser(random.Random(seed * 11 + 3), p_time=0.0, p_preempt=rng.choice([0.0, 0.05, 0.15]))
-    env = SimEnv(ch, addresses=[CONTROL] + PEERS)
+    env = SimEnv(ch, addresses=ADDRS)          # the sim net routes a connection by address: nodes sharing an address share the scripted node
     control = env.net.nodes[CONTROL]
     control.peers_v2 = v2
     cur = {'snap': gen.render(), 'served': 0}
@@ -223,7 +236,7 @@ def run_history(seed):
             rows = []
             for r in snap['rows']:
                 ab = None if r['addr'] is None else N.ip_bytes(r['addr'])
-                rows.append([ab, 7000, ab, 9042, r['host_id'], r['dc'], r['rack'], uuid.UUID(int=7), r['tokens'], '4.0.0'])
+                rows.append([ab, 7000, ab, r['port'], r['host_id'], r['dc'], r['rack'], uuid.UUID(int=7), r['tokens'], '4.0.0'])
             return node.rows(cstate, req, N.PEERS_V2_COLS, rows, 'system', 'peers_v2')
         if q.startswith('select * from system.peers'):
             cur['served'] += 1
@@ -241,7 +254,7 @@ def run_history(seed):
             self.rec = []
 
         def _note(self, what, h):
-            e = (what, h.endpoint.address, h.datacenter, h.rack)
+            e = (what, str(h.endpoint), h.datacenter, h.rack)
             if not self.rec or self.rec[-1] != e:          # the same policy object serves several built-in profiles
                 self.rec.append(e)
 
@@ -266,22 +279,22 @@ def run_history(seed):
             self.rec = []
 
         def on_up(self, h):
-            self.rec.append(('up', h.endpoint.address))
+            self.rec.append(('up', str(h.endpoint)))
 
         def on_down(self, h):
-            self.rec.append(('down', h.endpoint.address))
+            self.rec.append(('down', str(h.endpoint)))
 
         def on_add(self, h):
-            self.rec.append(('add', h.endpoint.address))
+            self.rec.append(('add', str(h.endpoint)))
 
         def on_remove(self, h):
-            self.rec.append(('remove', h.endpoint.address))
+            self.rec.append(('remove', str(h.endpoint)))
 
     viol = []
     stats = {'steps': 0, 'invalid_rows': 0, 'dup_rows': 0, 'appeared': 0, 'vanished': 0, 'loc_changes': 0, 'token_only_steps': 0,
              'token_maps_compared': 0, 'replica_checks': 0, 'event_triggers': 0, 'stale_carryover': 0, 'no_change_steps': 0,
              'token_change_steps': 0, 'hosts_compared': 0, 'forced': 0, 'same_ring_other_owners': 0, 'same_ring_replaced_host': 0,
-             'same_ownership_location_changed': 0, 'nts_replica_checks': 0}
+             'same_ownership_location_changed': 0, 'nts_replica_checks': 0, 'vanished_on_control_address': 0, 'hosts_on_non_default_port': 0}
     steps_log = []
     with env:
         lbp, lis = RecPolicy(), RecListener()
@@ -328,8 +341,10 @@ def run_history(seed):
             stats['steps'] += 1
             stats['invalid_rows'] += sum(1 for r in snap['rows'] if r['kind'].startswith('invalid'))
             stats['dup_rows'] += sum(1 for r in snap['rows'] if r['kind'].startswith('dup'))
+            stats['vanished_on_control_address'] += sum(1 for a in prev_exp if a not in exp and a.startswith(CONTROL + ':'))
+            stats['hosts_on_non_default_port'] += sum(1 for a in exp if not a.endswith(':9042'))
             with env.world.inspect():
-                hosts = dict((h.endpoint.address, h) for h in cluster.metadata.all_hosts())
+                hosts = dict((str(h.endpoint), h) for h in cluster.metadata.all_hosts())
                 obs = set(hosts)
                 wit = {'seed': seed, 'step': k, 'kind': kind, 'trigger': trig, 'proto': proto, 'peers_v2': v2,
                        'snapshot': {'local': snap['local'], 'rows': snap['rows']},
@@ -338,7 +353,7 @@ def run_history(seed):
                 if obs != set(exp):
                     rows_by_addr = {}
                     for r in snap['rows']:
-                        rows_by_addr.setdefault(r['addr'], []).append(r)
+                        rows_by_addr.setdefault(rid(r), []).append(r)
                     for a in sorted(obs - set(exp)):
                         if a in rows_by_addr:
                             missing = sorted(set(r['kind'] for r in rows_by_addr[a]))
@@ -352,7 +367,7 @@ def run_history(seed):
                     h = hosts[a]
                     stats['hosts_compared'] += 1
                     if (h.datacenter, h.rack) != exp[a][1:3] or h.host_id != exp[a][0]:
-                        dup = sum(1 for r in snap['rows'] if r['addr'] == a) + (1 if a == CONTROL else 0) > 1
+                        dup = sum(1 for r in snap['rows'] if rid(r) == a) + (1 if a == CONTROL_ID else 0) > 1
                         viol.append(('later-duplicate-row-overrode-host' if dup else 'location-not-mirrored',
                                      'host %s is (%s, %s, %s), the snapshot says %r' % (a, h.host_id, h.datacenter, h.rack, exp[a][:3]), wit))
                 # 3. listener notifications
@@ -371,7 +386,7 @@ def run_history(seed):
                     if old == new:
                         continue
                     stats['loc_changes'] += 1
-                    if a != CONTROL:
+                    if a != CONTROL_ID:
                         peer_loc_change = True
                     ok = False
                     for i, e in enumerate(lbp.rec):
@@ -385,12 +400,12 @@ def run_history(seed):
                 for a in sorted(set(exp) - set(prev_exp)):
                     if k > 0 and not any(e[0] == 'add' and e[1] == a and e[2:] == exp[a][1:3] for e in lbp.rec):
                         viol.append(('policy-not-told-new-host', 'host %s appeared; the policy saw %r' % (a, [e for e in lbp.rec if e[1] == a]), wit))
-                live = set(h.endpoint.address for h in lbp._live_hosts)
+                live = set(str(h.endpoint) for h in lbp._live_hosts)
                 if live != obs:
                     viol.append(('policy-live-set-diverged', 'policy live hosts %r, metadata %r' % (sorted(live), sorted(obs)), wit))
                 # 5. token map
                 tm = cluster.metadata.token_map
-                obs_tm = None if tm is None else dict((t.value, h.endpoint.address) for t, h in tm.token_to_host_owner.items())
+                obs_tm = None if tm is None else dict((t.value, str(h.endpoint)) for t, h in tm.token_to_host_owner.items())
                 exp_tm = ownership(exp)
                 membership_changed = set(exp) != set(prev_exp)
                 tokens_changed = any(a in prev_exp and prev_exp[a][3] != exp[a][3] for a in exp)
@@ -427,36 +442,36 @@ def run_history(seed):
                     ring = sorted(exp_tm.items())
                     locations = dict((a, v[1:3]) for a, v in exp.items())
                     if built['tm'] is not tm:
-                        built = {'tm': tm, 'ctrl_loc': locations[CONTROL]}
+                        built = {'tm': tm, 'ctrl_loc': locations[CONTROL_ID]}
                     for t, h in tm.token_to_host_owner.items():
-                        if hosts.get(h.endpoint.address) is not h:
+                        if hosts.get(str(h.endpoint)) is not h:
                             viol.append(('token-owner-is-not-a-current-member', 'token %d is owned by a Host object that is not the one in all_hosts()' % t.value, wit_tm))
                             break
                     for _ in range(3):
                         tv = rng.choice([rng.randint(-4100, 4100), ring[rng.randrange(len(ring))][0]])
                         reps = tm.get_replicas('ks42', Murmur3Token(tv))
-                        got = [h.endpoint.address for h in reps]
+                        got = [str(h.endpoint) for h in reps]
                         want = placement.simple_strategy(ring, 2, tv)
                         stats['replica_checks'] += 1
                         if got != want:
                             viol.append(('replicas-differ-on-rebuilt-ring', 'token %d: replicas %r, reference %r' % (tv, got, want), wit_tm))
                         # NetworkTopologyStrategy depends on dc / rack as well: a fresh placement on this snapshot (set comparison, no repeats)
                         nreps = tm.get_replicas('nts42', Murmur3Token(tv))
-                        ngot = sorted(h.endpoint.address for h in nreps)
+                        ngot = sorted(str(h.endpoint) for h in nreps)
                         nwant = sorted(placement.network_topology(ring, locations, NTS_RF, tv)[0])
                         stats['nts_replica_checks'] += 1
                         stale = None
-                        if ngot != nwant and built['ctrl_loc'] != locations[CONTROL]:
+                        if ngot != nwant and built['ctrl_loc'] != locations[CONTROL_ID]:
                             # same TokenMap object as when the control node was elsewhere: is this exactly the placement of that time?
-                            stale = sorted(placement.network_topology(ring, dict(locations, **{CONTROL: built['ctrl_loc']}), NTS_RF, tv)[0])
+                            stale = sorted(placement.network_topology(ring, dict(locations, **{CONTROL_ID: built['ctrl_loc']}), NTS_RF, tv)[0])
                         if ngot != nwant and stale == ngot:
                             viol.append(('nts-replicas-stale-after-control-node-location-change',
                                          'token %d: the control node moved %r -> %r, token map not rebuilt: NetworkTopologyStrategy replicas %r are those of the old location, fresh placement %r' % (
-                                             tv, built['ctrl_loc'], locations[CONTROL], ngot, nwant), dict(wit_tm, locations=locations)))
+                                             tv, built['ctrl_loc'], locations[CONTROL_ID], ngot, nwant), dict(wit_tm, locations=locations)))
                         elif ngot != nwant:
                             viol.append(('nts-replicas-differ-from-fresh-placement', 'token %d: NetworkTopologyStrategy %r replicas %r, fresh placement on the snapshot %r' % (
                                 tv, NTS_RF, ngot, nwant), dict(wit_tm, locations=locations)))
-                        if any(hosts.get(h.endpoint.address) is not h for h in list(reps) + list(nreps)):
+                        if any(hosts.get(str(h.endpoint)) is not h for h in list(reps) + list(nreps)):
                             viol.append(('replica-is-not-a-current-member', 'token %d: a returned replica is not a Host of all_hosts()' % tv, wit_tm))
                 prev_obs_tm = obs_tm
             prev_exp = exp
@@ -510,7 +525,9 @@ def run(ctx):
                      ("replica_lookups_compared", 'replica_checks'), ("refreshes_provoked_by_pushed_event", 'event_triggers'),
                      ("stale_token_map_carried_over_unchanged_step", 'stale_carryover'), ("host_records_compared", 'hosts_compared'), ("forced_rebuilds", 'forced'),
                      ("steps_same_ring_positions_other_owners", 'same_ring_other_owners'), ("steps_host_replaced_keeping_its_tokens", 'same_ring_replaced_host'),
-                     ("steps_same_ownership_location_changed", 'same_ownership_location_changed'), ("nts_replica_lookups_compared", 'nts_replica_checks')):
+                     ("steps_same_ownership_location_changed", 'same_ownership_location_changed'), ("nts_replica_lookups_compared", 'nts_replica_checks'),
+                     ("hosts_vanished_that_shared_the_control_address", 'vanished_on_control_address'),
+                     ("host_records_on_non_default_native_port", 'hosts_on_non_default_port')):
             ctx.count(k, stats[v])
         if info['peers_v2']:
             ctx.count("histories_peers_v2")
@@ -530,4 +547,5 @@ def run(ctx):
                           "hosts_appeared": 300, "hosts_vanished": 100, "location_changes": 100, "steps_with_token_change_only": 50,
                           "token_maps_compared": 1000, "replica_lookups_compared": 1000, "refreshes_provoked_by_pushed_event": 50,
                           "histories_peers_v2": 50, "histories_legacy_peers": 50, "steps_same_ring_positions_other_owners": 60,
-                          "steps_host_replaced_keeping_its_tokens": 20, "steps_same_ownership_location_changed": 40, "nts_replica_lookups_compared": 1000}
+                          "steps_host_replaced_keeping_its_tokens": 20, "steps_same_ownership_location_changed": 40, "nts_replica_lookups_compared": 1000,
+                          "hosts_vanished_that_shared_the_control_address": 30, "host_records_on_non_default_native_port": 500}
